@@ -971,7 +971,7 @@ impl ASN1Value {
     /// to the value the chain ends in. If a definition along the chain is not available, the last
     /// reference that could be reached is returned, `None` if `identifier` itself is no value
     /// assignment. A chain that leads back into itself is an error.
-    fn resolve_value_reference<'a>(
+    pub(super) fn resolve_value_reference<'a>(
         tlds: &'a BTreeMap<String, ToplevelDefinition>,
         identifier: &'a String,
     ) -> Result<Option<&'a ASN1Value>, GrammarError> {
